@@ -1288,7 +1288,16 @@ func (vc *FnVC) sliceOp(st *State, s *ssa.Slice) *Val {
 		if pa := vc.addrOf(st, x); pa != nil && sortOf(at.Elem()) != "" {
 			// materialise the array as a fresh backing store holding its current contents
 			// (later writes through the array variable are not reflected in the slice: noted)
-			base := vc.newRef(st, "arr")
+			var base string
+			if pa.Kind != "local" && vc.entry != nil {
+				// the array of a package-level variable / a field existed before this activation: its backing store is
+				// not a fresh object (a slice of it handed out is reachable by, and writable through, later calls)
+				base = vc.freshName("garr")
+				vc.declare(base, "Int")
+				vc.assume(st, smtAnd(sx("<", "0", base), sx("<=", sx("ref.root", base), vc.get(vc.entry, "$alloc"))))
+			} else {
+				base = vc.newRef(st, "arr")
+			}
 			mk := vc.memKey(at.Elem())
 			vc.set(st, mk.Name, sx("store", vc.get(st, mk.Name), base, vc.loadAddr(st, pa)))
 			if pa.Kind != "local" {
